@@ -81,41 +81,31 @@ Proof.
   - cbn [persist_push_fin fst skipn]. rewrite skipn_all. rewrite app_nil_r. reflexivity.
 Qed.
 
-(* ------------------------------------------------------------------ reduce_no_replay: finding *)
+(* ------------------------------------------------------------------ reduce_no_replay *)
 
 Lemma reduce_nr_steps : forall f items acc b,
   fold_left (fun (a : (list val * bool) * list val) x =>
                let '(s, out) := a in let '(s', o) := reduce_nr_push_step f s x in (s', out ++ o))
             items ((acc, b), [])
-  = ((fold_left (reduce_ins f) items acc,
-      b || match acc, items with
-           | [], [] => false | [], [_] => false | [], _ :: _ :: _ => true
-           | _ :: _, [] => false | _ :: _, _ :: _ => true
-           end), []).
+  = ((fold_left (reduce_ins f) items acc, b || match items with [] => false | _ => true end), []).
 Proof.
   intros f items. induction items as [|x r IH]; intros acc b; cbn [fold_left].
-  - destruct acc; rewrite orb_false_r; reflexivity.
-  - unfold reduce_nr_push_step at 2. cbn [fst snd]. destruct acc as [|a acc']; cbn [app reduce_ins].
-    + rewrite IH. destruct r as [|y r']; [cbn; rewrite orb_false_r; reflexivity|].
-      rewrite orb_true_r. reflexivity.
-    + rewrite IH. f_equal. f_equal. rewrite !orb_true_r. destruct r; reflexivity.
+  - rewrite orb_false_r. reflexivity.
+  - unfold reduce_nr_push_step at 2. cbn [fst snd app]. rewrite IH. rewrite orb_true_r. reflexivity.
 Qed.
 
-(* the two realisations agree -- same accumulator, same emission -- unless the tick (not tick 0)
-   brings exactly one item into an empty accumulator *)
-Theorem reduce_no_replay_pull_push_partial : forall f tick0 acc items,
-  ~ (acc = [] /\ length items = 1%nat /\ tick0 = false) ->
+(* the two realisations agree: same accumulator, same emission, for every state, tick and items *)
+Theorem reduce_no_replay_pull_push : forall f tick0 acc items,
   let '(s, out) := push_run (reduce_nr_push_step f) (reduce_nr_push_fin tick0) (acc, false) items in
   (fst s, out) = reduce_nr_pull f tick0 acc items.
 Proof.
-  intros f tick0 acc items H. unfold push_run. rewrite reduce_nr_steps.
-  unfold reduce_nr_push_fin, reduce_nr_pull. cbn [fst snd app orb].
-  destruct acc as [|a acc']; destruct items as [|x [|y r]]; try reflexivity.
-  destruct tick0; [reflexivity|]. exfalso. apply H. repeat split.
+  intros f tick0 acc items. unfold push_run. rewrite reduce_nr_steps.
+  unfold reduce_nr_push_fin, reduce_nr_pull. cbn [fst snd app orb]. reflexivity.
 Qed.
 
-(* ... and in that case they differ: pull emits the item, push emits nothing *)
-Theorem reduce_no_replay_pull_push_refuted : exists f tick0 acc items,
-  let '(s, out) := push_run (reduce_nr_push_step f) (reduce_nr_push_fin tick0) (acc, false) items in
-  (fst s, out) <> reduce_nr_pull f tick0 acc items.
-Proof. exists a_sum, false, [], [VN 0]. vm_compute. discriminate. Qed.
+(* former witness (fixed in /repo 6436e27651c): with the flag set inside the reduce closure, one item
+   into an empty accumulator after tick 0 was emitted by the pull side and not by the push side *)
+Example reduce_no_replay_former_witness :
+  let '(s, out) := push_run (reduce_nr_push_step_old a_sum) (reduce_nr_push_fin false) ([], false) [VN 0] in
+  (fst s, out) <> reduce_nr_pull a_sum false [] [VN 0].
+Proof. vm_compute. discriminate. Qed.
